@@ -13,7 +13,6 @@ import (
 	"path/filepath"
 	"sort"
 	"strings"
-	"sync"
 	"syscall"
 	"testing"
 
@@ -53,21 +52,25 @@ func content(i int) []byte {
 	return append(b, []byte(fmt.Sprintf("#%d", i))...)
 }
 
-// gatedReader hands out its content chunk by chunk, each chunk only after the controller allowed it.
+// gatedReader hands out its content chunk by chunk. With a controller attached every Read first reports
+// "arrived" (which implies that the previous chunk has been written by the copy loop) and then waits for
+// its grant, so the controller owns the interleaving of two writers at chunk granularity.
 type gatedReader struct {
 	data   []byte
 	chunk  int
 	pos    int
 	n      int
 	failAt int
-	gate   chan struct{} // nil: free running
+	arrive chan struct{} // nil: free running
+	grant  chan struct{}
 }
 
 var errInjected = errors.New("injected read fault")
 
 func (g *gatedReader) Read(p []byte) (int, error) {
-	if g.gate != nil {
-		<-g.gate
+	if g.arrive != nil {
+		g.arrive <- struct{}{}
+		<-g.grant
 	}
 	if g.failAt >= 0 && g.n >= g.failAt {
 		return 0, errInjected
@@ -171,29 +174,43 @@ func runOps(c OpsCase) (pbt.Result, error) {
 			}
 		case "set-pair":
 			a, b := content(op.Content), content(op.Content2)
-			ga := &gatedReader{data: a, chunk: 20000, failAt: -1, gate: make(chan struct{}, 64)}
-			gb := &gatedReader{data: b, chunk: 20000, failAt: -1, gate: make(chan struct{}, 64)}
+			ga := &gatedReader{data: a, chunk: 20000, failAt: -1, arrive: make(chan struct{}), grant: make(chan struct{})}
+			gb := &gatedReader{data: b, chunk: 20000, failAt: -1, arrive: make(chan struct{}), grant: make(chan struct{})}
 			if op.Fail2 {
 				gb.failAt = op.FailAt
 			}
-			var wg sync.WaitGroup
 			var ea, eb error
-			wg.Add(2)
-			go func() { defer wg.Done(); ea = fsc.Set(ctx, "cas", k, ga) }()
-			go func() { defer wg.Done(); eb = fsc.Set(ctx, "cas", k, gb) }()
-			for _, w := range op.Order {
-				g := ga
-				if w%2 == 1 {
-					g = gb
-				}
+			doneA, doneB := make(chan struct{}), make(chan struct{})
+			go func() { ea = fsc.Set(ctx, "cas", k, ga); close(doneA) }()
+			go func() { eb = fsc.Set(ctx, "cas", k, gb); close(doneB) }()
+			// step(w): let writer w perform exactly one more read (its previous chunk is on disk by then)
+			step := func(g *gatedReader, done chan struct{}) bool {
 				select {
-				case g.gate <- struct{}{}:
-				default:
+				case <-g.arrive:
+					g.grant <- struct{}{}
+					return true
+				case <-done:
+					return false
 				}
 			}
-			close(ga.gate) // closed channels let the remaining reads through
-			close(gb.gate)
-			wg.Wait()
+			for _, w := range op.Order {
+				if w%2 == 0 {
+					step(ga, doneA)
+				} else {
+					step(gb, doneB)
+				}
+			}
+			// drain: finish A then B (or the other way round, by the last order entry)
+			first, firstDone, second, secondDone := ga, doneA, gb, doneB
+			if len(op.Order) > 0 && op.Order[len(op.Order)-1]%2 == 0 {
+				first, firstDone, second, secondDone = gb, doneB, ga, doneA
+			}
+			for step(first, firstDone) {
+			}
+			for step(second, secondDone) {
+			}
+			<-doneA
+			<-doneB
 			var okContents [][]byte
 			if ea == nil {
 				okContents = append(okContents, a)
